@@ -22,7 +22,7 @@ func init() {
 				"Not decided: interleavings of the halves of different moves; ring capacity versus history length ('or none' is permitted).",
 			Rule:        "one obligation per store to the old-name field, per phi edge of the stored value, per ring write, per index update",
 			Assumptions: []string{"go/types + go/ssa", "array length read from the field's type"},
-			MinObl:      7,
+			MinObl:      6,
 		},
 		Configs: tiered(linuxQuick, linuxAll),
 		Run:     runC11,
